@@ -15,10 +15,11 @@ What is proved here (✔ of DESIGN §6 C14): the arithmetic core (`gcdx`), the e
 homomorphism (`relator_as_vector`) with rotation / conjugation invariance of the whole result,
 the divisibility pass and the output format, termination of every loop, and that the
 instrumented model used by the driver computes the same values.
+Also proved (○ `clear_step_unimodular`): every single row / column step of the elimination is a
+2×2-block integer operation of determinant ±1 that clears its target entry.
 What is NOT proved (kept as `def … : Prop`, evaluated per explored input by the Spec):
-that the diagonalisation preserves the invariant factors (`clear_step_unimodular_statement`,
-`diagonalize_equiv_statement`) and, resting on the uniqueness of the Smith normal form,
-`abelian_invariants_statement`.
+that the composition of these steps is `U·A·V = D` with `D` diagonal (`diagonalize_equiv_statement`)
+and, resting on the uniqueness of the Smith normal form, `abelian_invariants_statement`.
 
 Vocabulary:
   `Inv.InRange n g`      letter of a presentation on n generators: g ≠ 0 ∧ |g| ≤ n
@@ -28,9 +29,10 @@ Vocabulary:
   `Inv.zpat f`           zero pattern `f.map (· = 0)`
   `Inv.Rect mat n m`     n rows, each of length m
 -/
-import DSymVerif.Proofs.InvariantsDiag
+import DSymVerif.Proofs.InvariantsSteps
 import DSymVerif.Proofs.InvariantsBound
 import Mathlib.Data.List.Forall2
+import Mathlib.LinearAlgebra.Matrix.Determinant.Basic
 
 namespace DSymVerif.C14
 open DSymVerif DSymVerif.Inv DSymVerif.SpecC14
@@ -93,6 +95,15 @@ theorem vector_hom (k : Nat) (a b u : List Int) (i : Int) (j m : Nat) :
     expSum k (FW.mul (FW.mul u a) (FW.inverse u)) = expSum k a :=
   ⟨expSum_append k a b, expSum_mul k a b, expSum_inverse k a, expSum_powNat k a m,
    expSum_normalized k a, expSum_rot k a j, expSum_rotated k a i, expSum_conj k u a⟩
+
+/-- at row level: the row of a product is the sum of the rows, the row of an inverse the negated row
+    (so inverting a relator negates a row, appending a product of relators appends the sum of
+    their rows: the row lattice is unchanged) -/
+theorem vector_hom_rows (n : Nat) (a b : List Int) :
+    expVec n (FW.mul a b) = List.zipWith (· + ·) (expVec n a) (expVec n b) ∧
+    expVec n (FW.inverse a) = (expVec n a).map (fun x => -x) ∧
+    (expVec n a).length = n :=
+  ⟨expVec_mul n a b, expVec_inverse n a, expVec_length n a⟩
 
 /-- hence the matrix row of a rotated or conjugated relator is literally the same row -/
 theorem vector_rotation_conjugation (n : Nat) (w u : List Int) (i : Int)
@@ -160,6 +171,12 @@ theorem invariants_ascending (n : Nat) (rels : List (List Int)) (out : List Nat)
     (h : abelianInvariants n rels = .ok out) : List.Pairwise (fun a b => a ≤ b) out :=
   abelianInvariants_sorted h
 
+/-- … and contains no 1 (the diagonal left by `diagonalize_in_place` is non-negative, the
+    divisibility pass keeps it so, hence the `!= 1` filter before `abs()` misses nothing) -/
+theorem invariants_no_one (n : Nat) (rels : List (List Int)) (out : List Nat)
+    (h : abelianInvariants n rels = .ok out) : 1 ∉ out :=
+  abelianInvariants_no_one h
+
 example : abelianInvariants 3 [] = .ok [0, 0, 0] := abelianInvariants_no_relators 3
 
 /-- no relators: the free abelian group of rank n -/
@@ -182,6 +199,11 @@ example : Rect [[2, 4], [6, 8]] 2 2 ∧ 0 < 2 := by
   simp at hrow
   rcases hrow with rfl | rfl <;> rfl
 
+/-- the diagonal it leaves is non-negative -/
+theorem diagonal_nonneg (mat D : Mat) (n m : Nat) (hR : Rect mat n m) (hn : 0 < n)
+    (h : diagonalize mat = some D) : ∀ k, k < n → k < m → 0 ≤ get D k k :=
+  diagonalize_diag_nonneg mat D n m hR hn h
+
 /-- the model never reports a non-terminating loop, for any input -/
 theorem invariants_never_diverges (n : Nat) (rels : List (List Int)) :
     abelianInvariants n rels ≠ .err :=
@@ -201,29 +223,69 @@ theorem instrumented_model_agrees (n : Nat) (rels : List (List Int)) :
     (abelianInvariantsB n rels).1 = abelianInvariants n rels :=
   abelianInvariantsB_fst n rels
 
-/-! ## 5. open obligations (statements fixed, not proved; evaluated by the Spec per input) -/
+/-! ## 5. single elimination steps are unimodular (○ `clear_step_unimodular`) -/
 
-/-- ○ every row step of `clear_later_rows_in_place` replaces rows `i`, `row` by an integer
-    combination of determinant ±1 (when both rows vanish left of column `i`) and clears
-    `mat[row][i]`.  Proved so far: the coefficients used have determinant ±1 (`gcdx_spec`). -/
-def clear_step_unimodular_statement : Prop :=
-  ∀ (mat : Mat) (n m i row cnt : Nat), Rect mat n m → i < m → i < row → row < n →
-    (∀ c, c < i → get mat i c = 0 ∧ get mat row c = 0) →
+/-- a step of `clear_later_rows_in_place` on an `n × m` matrix whose rows `i` and `row` vanish left
+    of column `i` replaces these two rows by `p·R_i + q·R_row`, `r·R_i + s·R_row` with
+    `p·s − q·r = ±1`, leaves every other row alone and makes `mat[row][i] = 0`. -/
+theorem clear_step_unimodular_rows (mat : Mat) (n m i row cnt : Nat) (hR : Rect mat n m)
+    (him : i < m) (hir : i < row) (hrn : row < n)
+    (hz : ∀ c, c < i → get mat i c = 0 ∧ get mat row c = 0) :
     ∃ p q r s : Int, (p * s - q * r = 1 ∨ p * s - q * r = -1) ∧
-      ∀ k c, c < m → k < n →
+      (∀ k c, c < m → k < n →
         get (clearRowStep i (mat, cnt) row).1 k c =
           if k = i then p * get mat i c + q * get mat row c
           else if k = row then r * get mat i c + s * get mat row c
-          else get mat k c
+          else get mat k c) ∧
+      get (clearRowStep i (mat, cnt) row).1 row i = 0 :=
+  clearRowStep_unimodular mat n m i row cnt hR him hir hrn hz
 
-/-- ○ `diagonalize_in_place` ends in a non-negative diagonal matrix -/
-def diagonalize_diagonal_statement : Prop :=
+example : Rect [[2, 4], [6, 8]] 2 2 ∧ (∀ c, c < 0 → get [[2, 4], [6, 8]] 0 c = 0 ∧ get [[2, 4], [6, 8]] 1 c = 0) := by
+  refine ⟨⟨rfl, ?_⟩, by intro c hc; omega⟩
+  intro row hrow
+  simp at hrow
+  rcases hrow with rfl | rfl <;> rfl
+
+/-- a step of `clear_later_cols_in_place` on an `n × m` matrix whose columns `i` and `col` vanish
+    above row `i` replaces these two columns by `p·C_i + q·C_col`, `r·C_i + s·C_col` with
+    `p·s − q·r = ±1`, leaves every other column alone and makes `mat[i][col] = 0`. -/
+theorem clear_step_unimodular_cols (mat : Mat) (n m i col cnt : Nat) (hR : Rect mat n m)
+    (hin : i < n) (hic : i < col) (hcm : col < m)
+    (hz : ∀ k, k < i → get mat k i = 0 ∧ get mat k col = 0) :
+    ∃ p q r s : Int, (p * s - q * r = 1 ∨ p * s - q * r = -1) ∧
+      (∀ k c, c < m → k < n →
+        get (clearColStep i (mat, cnt) col).1 k c =
+          if c = i then p * get mat k i + q * get mat k col
+          else if c = col then r * get mat k i + s * get mat k col
+          else get mat k c) ∧
+      get (clearColStep i (mat, cnt) col).1 i col = 0 :=
+  clearColStep_unimodular mat n m i col cnt hR hin hic hcm hz
+
+/-! ## 6. open obligations (statements fixed, not proved; evaluated by the Spec per input) -/
+
+/-- the matrix of a model matrix -/
+def toMatrix (mat : Mat) (n m : Nat) : Matrix (Fin n) (Fin m) ℤ := fun r c => get mat r c
+
+/-- ○ `diagonalize_in_place` ends in a diagonal matrix `D = U·A·V` with `U`, `V` unimodular,
+    provided no entry reaches `isize::MAX` on the way (`find_pivot` starts its minimum search at
+    `isize::MAX` and would overlook such an entry).
+    Missing: the invariant "rows and columns `< i` are cleared" through the loops (each single
+    step is covered by `clear_step_unimodular_rows/cols`), and the translation of the entrywise
+    description into matrix products. -/
+def diagonalize_equiv_statement : Prop :=
   ∀ (mat D : Mat) (n m : Nat), Rect mat n m → 0 < n → diagonalize mat = some D →
-    (∀ r c, r < n → c < m → r ≠ c → get D r c = 0) ∧ (∀ r, r < n → r < m → 0 ≤ get D r r)
+    (diagonalizeB mat 0).2 < isizeMax.toNat →
+    (∀ r c, r < n → c < m → r ≠ c → get D r c = 0) ∧
+    ∃ (U : Matrix (Fin n) (Fin n) ℤ) (V : Matrix (Fin m) (Fin m) ℤ),
+      (U.det = 1 ∨ U.det = -1) ∧ (V.det = 1 ∨ V.det = -1) ∧
+      U * toMatrix mat n m * V = toMatrix D n m
 
 /-- ◐ the main clause: the returned list is the one the Spec computes from the determinantal
-    divisors.  Needs `diagonalize_equiv` (∃ unimodular U V, U·A·V = D) and the invariance of the
-    determinantal divisors under unimodular equivalence (uniqueness of the Smith normal form). -/
+    divisors.  Needs `diagonalize_equiv_statement` and the invariance of the determinantal
+    divisors under unimodular equivalence (uniqueness of the Smith normal form), which Mathlib
+    does not provide in usable form.  With it, the remaining invariances of the property
+    (reordering / inverting relators, renaming / inverting generators, appending products) follow
+    from `vector_hom_rows`. -/
 def abelian_invariants_statement : Prop :=
   ∀ (n : Nat) (rels : List (List Int)), (∀ w ∈ rels, ∀ g ∈ w, InRange n g) →
     abelianInvariants n rels = .ok (SpecC14.expected n rels)
